@@ -696,7 +696,11 @@ def Canon.instrBody (c : Canon) (i : Instr) (r : Regs) : Option String × Regs :
   | .TypeAssert =>
     let (x, r) := no 0 r
     (some ("TypeAssert " ++ x ++ ", AssertedType:" ++ i.s1 ++ (if i.b1 then ", CommaOk" else "")), r)
-  | .MakeInterface => conv "MakeInterface" r
+  | .MakeInterface =>
+    -- the boxed type (exported in `s1`) is the dynamic type of the result (fix "MakeInterface shows the
+    -- type that is boxed")
+    let (x, r) := no 0 r
+    (some ("MakeInterface " ++ i.typ ++ ", " ++ x ++ ", From:" ++ i.s1), r)
   | .ChangeType => conv "ChangeType" r
   | .Convert => conv "Convert" r
   | .ChangeInterface => conv "ChangeInterface" r
